@@ -293,7 +293,7 @@ CFG = {
     "facts": [("holding-plugins-get-timeouts", fact_holding_plugins), ("five-action-results", fact_five_results)],
     "signatures": {"c13_lenient_nested_json": sig_lenient_nested_json, "c13_k8s_cutoff_splits_escape": sig_k8s_cutoff_splits_escape},
     "rule": "per plugin: the systematic configuration list (every documented option) x every value of the adversarial value list at the configured fields (chunks of 14 events; a rotating third of the list in quick) "
-            "+ root shapes/raw texts + random configurations x random sequences (quick 150x6, thorough 1200x10 per plugin) + 20/300 real-pipeline runs per plugin (c13.pipe, every fourth with the stdout output plugin); cores: exhaustive strings over {a,b} up to length 4/6 x every filter/mode/cutset/group order, "
+            "+ root shapes/raw texts + random configurations x random sequences (quick 150x6, thorough 1200x10 per plugin) + 20/120 real-pipeline runs per plugin (c13.pipe, every fourth with the stdout output plugin); cores: exhaustive strings over {a,b} up to length 4/6 x every filter/mode/cutset/group order, "
             "all strings over {\\,u,x,0,d,8} up to length 5/6 for the utf8 scanner, random chains; distinct = distinct case line; non-trivial = at least one event was really processed (cores: a value was produced)",
     "corr_name": "c13.pipe: the same inside a real pipeline (processor.doActions/countEvent, Propagate, Spawn, real time-outs), no model column; modelled cores: Act.Subst.run = modify filters, Act.Utf8Bytes.convert = convert_utf8_bytes, Act.HashTok = normalizer tokenizer, Act.Fields = rename/move, MatchRule.rsMatch = match rules of a mask through mask.Do (c13.mrule); c13.act has no model column (M echoes the implementation)",
     "trusted_base": [
